@@ -21,6 +21,7 @@ import statistics
 import tempfile
 
 from checks.common import np, pd  # noqa: F401  (binds the tree under test first)
+from cnvlib import read as cnvlib_read
 from cnvlib import reference as R
 from cnvlib.cnary import CopyNumArray as CNA
 from mc.engine import Exc
@@ -211,6 +212,12 @@ def cases(tier):
                 c = pooled_case(k, sexes, {"dn": (clean, (0,) * k), "naming": naming, "anti": anti, "order": order})
                 if emit(c):
                     yield c
+    # the same through the command line: every legal spelling of -x / --sample-sex, with and without -y
+    for sexes in ((0, 0), (1, 1), (0, 1)) + (((1, 0, 1),) if t else ()):
+        for anti in ("none", "present"):
+            c = pooled_case(len(sexes), sexes, {"dn": (False, (0,) * len(sexes)), "naming": NAMINGS[0], "anti": anti, "order": ORDERS[0]})
+            c["via"] = "cli"
+            yield c
     # corrections on, semantic clauses
     for cohort in COHORTS_B:
         if cohort == "MFM" and not t:
@@ -220,6 +227,9 @@ def cases(tier):
                 for mask in range(8):
                     corr = [c for i, c in enumerate(CORRECTIONS) if mask >> i & 1]
                     yield {"check": "corrected", "cohort": cohort, "anti": anti, "ref_male": ref_male, "corrections": corr}
+    for anti in ("none", "present"):
+        for corr in (["gc"], ["gc", "rmask"], ["gc", "edge", "rmask"]):
+            yield {"check": "corrected", "cohort": "FM", "anti": anti, "ref_male": False, "corrections": corr, "stale_gc": True}
     if t:
         for k in (1, 2, 3):
             for sexes in itertools.product((0, 1), repeat=k):
@@ -409,9 +419,10 @@ def check_bins(ctx, tab, expected_bins, key, sub):
     return True
 
 
-def judge_exact(ctx, tab, blocks, attributed, ref_male, kp, sub, anti_bins=()):
+def judge_exact(ctx, tab, blocks, attributed, ref_male, kp, sub, anti_bins=(), tol=None):
     """Every output bin against the model.  One violation per (call, key): the first failing bin + the count."""
     model = RB.pooled_reference([[[(r[0], r[1], r[2], r[5]) for r in rows] for rows in blk] for blk in blocks], attributed, ref_male)
+    tol = TOL_ITER if tol is None else tol
     fails = {}
     anti_set = {(b[0], b[1], b[2]) for b in anti_bins}
     for c, s, e, lg, sp in zip(tab["chromosome"], tab["start"], tab["end"], tab["log2"], tab["spread"]):
@@ -429,14 +440,16 @@ def judge_exact(ctx, tab, blocks, attributed, ref_male, kp, sub, anti_bins=()):
             ctx.stratum("estimator: more than one step")
         if info["borderline"]:
             ctx.stratum("estimator: step length within 1e-9 of the tolerance (both continuations accepted)")
-        if not (math.isfinite(lg) and any(RB.close(lg, v, TOL_ITER) for v in m["log2"])):
+        if not (math.isfinite(lg) and any(RB.close(lg, v, tol) for v in m["log2"])):
             k = f"pooled/log2/{role}"
             f = fails.setdefault(k, ["each bin's log2 is Tukey's biweight location over {neutral pseudo-sample} + the centred, sex-shifted samples", 0, None])
             f[1] += 1
             if f[2] is None:
                 f[2] = {"bin": [c, s, e], "expected": m["log2"], "observed": lg, "estimator_inputs": m["values"], "estimator_path": feat}
             continue  # the spread is defined about the location; judged only where the location stands
-        ok, mv = RB.spread_ok(sp, m["values"], lg, TOL_ITER)
+        # values read back from a file carry 6 digits; the spread is defined about the unrounded location
+        centre = lg if tol == TOL_ITER else min(m["log2"], key=lambda v: abs(v - lg))
+        ok, mv = RB.spread_ok(sp, m["values"], centre, tol)
         if mv["near_symmetric"]:
             ctx.stratum("spread: exactly symmetric inputs (MAD fallback allowed)")
         else:
@@ -480,6 +493,24 @@ def judge_sex_levels(ctx, tab, ref_male, kp, sub, tol=SEM_TOL):
             )
 
 
+CLI_SPELLINGS = {"inferred": [None], "given-female": ["f", "x", "female", "Female"], "given-male": ["m", "y", "male", "Male"]}
+_CLI_N = [0]
+
+
+def cli_reference(tmp, t_paths, a_paths, ref_male, spelling):
+    """`cnvkit.py reference <files> -o out --no-gc --no-edge --no-rmask [-y] [-x SEX]`, output read back (values carry 6 digits)."""
+    from cnvlib import commands
+
+    _CLI_N[0] += 1
+    out = os.path.join(tmp, "cli_reference_%d.cnn" % _CLI_N[0])
+    argv = ["reference"] + list(t_paths) + list(a_paths or []) + ["-o", out, "--no-gc", "--no-edge", "--no-rmask"]
+    argv += ["-y"] if ref_male else []
+    argv += ["-x", spelling] if spelling else []
+    args = commands.parse_args(argv)
+    args.func(args)
+    return cnvlib_read(out)
+
+
 def run_pooled(case, ctx, tmp):
     k, sexes = case["k"], case["sexes"]
     tb, ab, tp, ap = genome_a(case["naming"])
@@ -493,14 +524,22 @@ def run_pooled(case, ctx, tmp):
     ctx.stratum("pooled: cohort " + ("mixed" if not uniform else "all-male" if sexes[0] else "all-female"))
     ctx.stratum("pooled: antitarget " + case["anti"])
     ctx.stratum("pooled: naming " + case["naming"])
+    cli = case.get("via") == "cli"
     for ref_male in (False, True):
-        for mode in SEX_MODES:
+        for mode, spelling in [(m, sp) for m in SEX_MODES for sp in (CLI_SPELLINGS[m] if cli else [None])]:
             attributed = list(map(bool, sexes)) if mode == "inferred" else [mode == "given-male"] * k
             truthful = attributed == list(map(bool, sexes))
             sub = {"ref_male": ref_male, "sexes": mode}
             kp = "sexes-inferred" if mode == "inferred" else "sexes-given"
             female_samples = None if mode == "inferred" else mode == "given-female"
-            ref = ctx.call(R.do_reference, t_paths, a_paths, None, ref_male, None, female_samples, False, False, False)
+            if cli:
+                # the same call through `cnvkit.py reference` (argument parsing, every legal spelling of -x)
+                sub["argv_sex"] = spelling
+                kp = "cli/" + kp
+                ctx.stratum("cli reference: -x " + str(spelling))
+                ref = ctx.call(cli_reference, tmp, t_paths, a_paths, ref_male, spelling)
+            else:
+                ref = ctx.call(R.do_reference, t_paths, a_paths, None, ref_male, None, female_samples, False, False, False)
             shifted = any(a != ref_male for a in attributed)
             ctx.state(("pooled", case, ref_male, mode), nontrivial=shifted or k >= 2)
             if isinstance(ref, Exc):
@@ -522,7 +561,7 @@ def run_pooled(case, ctx, tmp):
                 continue
             for a, true_male in zip(attributed, sexes):
                 ctx.stratum("shift: %s sample -> %s reference" % ("male" if a else "female", "male" if ref_male else "female"))
-            model, _ok = judge_exact(ctx, tab, blocks, attributed, ref_male, kp, sub, ab if case["anti"] == "present" else ())
+            model, _ok = judge_exact(ctx, tab, blocks, attributed, ref_male, kp, sub, ab if case["anti"] == "present" else (), tol=1e-5 if cli else None)
             if truthful:
                 judge_sex_levels(ctx, tab, ref_male, "pooled/" + kp, sub)
             if case["clean"] and uniform and truthful and k >= 2:
@@ -689,6 +728,16 @@ def run_corrected(case, ctx, tmp):
     ref_male = case["ref_male"]
     corr = case["corrections"]
     kp = "+".join(corr) if corr else "none"
+    if case.get("stale_gc"):
+        # coverage files that already carry a gc column (import-picard output, re-annotated .cnn) with values that are
+        # not the FASTA's: a FASTA was given, so the reference's gc is still the G+C fraction of each bin's sequence
+        for path in list(t_paths) + list(a_paths or []):
+            with open(path) as f:
+                lines = f.read().splitlines()
+            with open(path, "w") as f:
+                for i, line in enumerate(lines):
+                    f.write(line + ("\tgc" if i == 0 else "\t0.111") + "\n")
+        ctx.stratum("corrected: coverage files carry a stale gc column")
     ref = ctx.call(R.do_reference, t_paths, a_paths, fa, ref_male, None, None, "gc" in corr, "edge" in corr, "rmask" in corr)
     ctx.state(("corrected", case), nontrivial=bool(corr))
     ctx.stratum("corrected: " + kp)
